@@ -674,6 +674,42 @@ Proof.
   - apply U. exact K.
 Qed.
 
+Lemma update_persist_current : forall s, p_kind (s_per (update_persist_seqnums s)) = PFile ->
+  p_get_ctrl (s_per (update_persist_seqnums s)) =
+  Some (s_next_send (update_persist_seqnums s), s_next_recv (update_persist_seqnums s)).
+Proof.
+  intros s. unfold update_persist_seqnums. destruct (p_attached (s_per s)) eqn:A.
+  - cbn [w_per s_per s_next_send s_next_recv]. rewrite p_put_ctrl_kind. intro KK.
+    unfold p_get_ctrl. rewrite p_put_ctrl_kind, KK. unfold p_put_ctrl. rewrite KK. reflexivity.
+  - intro KK. unfold p_attached in A. rewrite KK in A. discriminate.
+Qed.
+
+(* the Reject path (an f8Exception without force_logoff, thrown by the decoder or by a handler): since /repo
+   beb4ce7 it ends with update_persist_seqnums as well *)
+Lemma c16_reject_control_lemma : forall sc now seqnum mt text s1 e1,
+  let r := process_catch sc now seqnum mt (inr (Exc text false), s1, e1) in
+  p_kind (s_per (snd (fst r))) = PFile ->
+  p_get_ctrl (s_per (snd (fst r))) = Some (s_next_send (snd (fst r)), s_next_recv (snd (fst r))).
+Proof.
+  intros sc now seqnum mt text s1 e1. unfold process_catch.
+  destruct (handle_outbound_reject sc now seqnum mt text s1) as [[b s2] e2]. cbn [fst snd].
+  apply update_persist_current.
+Qed.
+
+(* every way out of Session::process but the force_logoff one *)
+Lemma c16_inbound_control_lemma : forall sc decode now seqnum mt m s,
+  let r := process_body sc decode now seqnum m s in
+  (match fst (fst r) with inr (Exc _ true) => False | _ => True end) ->
+  let r' := process_catch sc now seqnum mt r in
+  p_kind (s_per (snd (fst r'))) = PFile ->
+  p_get_ctrl (s_per (snd (fst r'))) = Some (s_next_send (snd (fst r')), s_next_recv (snd (fst r'))).
+Proof.
+  intros sc decode now seqnum mt m s r NF.
+  destruct r as [[[b|[text force]] s1] e1] eqn:R; cbn [fst snd] in NF.
+  - cbn [process_catch fst snd]. intro K. eapply c16_process_control_lemma; [exact R|exact K].
+  - destruct force; [contradiction|]. apply c16_reject_control_lemma.
+Qed.
+
 (* ==================================================================================================== *)
 (* witnesses on the concrete demo schema (vm_compute on the faithful model)                              *)
 (* ==================================================================================================== *)
@@ -732,14 +768,22 @@ Lemma c16_logout_ok_lemma :
   c16_ok h_supervisor (run_history demo_schema h_supervisor) = true.
 Proof. vm_compute. split; reflexivity. Qed.
 
-(* the Reject path of Session::process increments next_recv but does not update the control record *)
+(* the Reject path of Session::process: BEFORE /repo beb4ce7 it incremented next_recv without updating the control
+   record -- control (3, 1) against the session's (3, 2) after the Reject went out as 2; now (3, 2) *)
+Definition txt_x : bytes := [120].
+Lemma c16_reject_orig_refuted_lemma :
+  ctrl_vs_seq (process_catch_orig demo_schema T0 2 None (inr (Exc txt_x false), st0, [])) = (Some (3, 1), 3, 2) /\
+  ctrl_vs_seq (process_catch demo_schema T0 2 None (inr (Exc txt_x false), st0, [])) = (Some (3, 2), 3, 2).
+Proof. vm_compute. split; reflexivity. Qed.
+
+(* an inbound message with a missing mandatory field is answered with a Reject; the history satisfies the oracle *)
 Definition h_reject : list op :=
   [OStart (demo_init PFile) None; OIn [demo_logon_in 1];
    OIn [demo_inbound [68] 2 [mkF 1 11 [65]]]].          (* Symbol (55) is mandatory and missing *)
 
-Lemma c16_reject_refuted_lemma :
-  ctrl_and_seq (run_history demo_schema h_reject) = Some (Some (3, 2), 3, 3) /\
-  c16_ok h_reject (run_history demo_schema h_reject) = false.
+Lemma c16_reject_ok_lemma :
+  ctrl_and_seq (run_history demo_schema h_reject) = Some (Some (3, 3), 3, 3) /\
+  c16_ok h_reject (run_history demo_schema h_reject) = true.
 Proof. vm_compute. split; reflexivity. Qed.
 
 (* non-vacuity: a plain history with singles, a batch of three and an admin send meets the hypotheses,
